@@ -89,7 +89,57 @@ def matchFn (lookup : Val) (array : Val) (matchType : Int) : Res :=
       else .ok (idxOrNA (scanApprox (fun key => keyGe true key lookup) k keys 0 none))
   | _, _ => .error .unmodelled
 
-/-- `_xmatch` for the linear search modes 1 (first to last) and -1 (last to first) -/
+/-! ### `_binary_search` (XMATCH search modes 2 and -2) -/
+
+/-- Python's `a < b` between two keys as `_binary_search` compares them (nothing is lower-cased, no key is skipped): numbers with
+numbers, text with text by code points; text against a number raises TypeError (`none`) -/
+def bsLt (a b : Val) : Option Bool :=
+  match a, b with
+  | .str x, .str y => some (strLt x y)
+  | x, y => if lkind x == some .num && lkind y == some .num then some (decide (lnum x < lnum y)) else none
+
+/-- keys the model of the binary search describes: numbers and texts. The blank object is left out: its comparison methods are not
+those of the integer 0 (`EmptyCell() > x` is always false) -/
+def bsKey : Val → Bool
+  | .blank => false
+  | k => (lkind k).isSome
+
+/-- the `while first <= last` loop; the result is `(exact, next_smallest, next_largest)` before the two final corrections -/
+def bsLoop (keys : List Val) (v : Val) (rev : Bool) (first last ns nl : Int) : Except PyExc (Int × Int × Int) :=
+  if first ≤ last then
+    let mid := (last + first) / 2
+    match keys[mid.toNat]? with
+    | none => .error .indexError
+    | some k =>
+      match bsLt k v, bsLt v k with
+      | some lt, some gt =>
+        let left := if rev then gt else lt
+        let right := if rev then lt else gt
+        if left then bsLoop keys v rev (mid + 1) last (if rev then ns else mid) (if rev then mid else nl)
+        else if right then bsLoop keys v rev first (mid - 1) (if rev then mid else ns) (if rev then nl else mid)
+        else .ok (mid, mid, mid)
+      | _, _ => .error .typeError
+  else .ok (-1, ns, nl)
+termination_by (last + 1 - first).toNat
+decreasing_by all_goals omega
+
+/-- `_binary_search(arr, lookup_value, reverse)` on the key column of `arr` -/
+def binarySearch (keys : List Val) (v : Val) (rev : Bool) : Except PyExc (Int × Int × Int) :=
+  let n : Int := keys.length
+  if keys.isEmpty then .error .indexError
+  else
+    match bsLoop keys v rev 0 (n - 1) (if rev then n - 1 else 0) (if rev then 0 else n - 1) with
+    | .error e => .error e
+    | .ok (e, ns, nl) =>
+      match keys[ns.toNat]?, keys[nl.toNat]? with
+      | some ks, some kl =>
+        match bsLt v ks, bsLt kl v with
+        | some sGt, some lLt => .ok (e, if sGt then -1 else ns, if lLt then -1 else nl)
+        | _, _ => .error .typeError
+      | _, _ => .error .indexError
+
+/-- `_xmatch`: the linear search modes 1 (first to last) and -1 (last to first) go through `_match`, the modes 2 and -2 through
+`_binary_search` (keys ascending resp. descending) -/
 def xmatchFn (lookup array : Val) (matchMode searchMode : Int) : Res :=
   if searchMode = 1 then matchFn lookup array matchMode
   else if searchMode = -1 then
@@ -98,6 +148,20 @@ def xmatchFn (lookup array : Val) (matchMode searchMode : Int) : Res :=
       match matchFn lookup (.list rows.reverse) matchMode with
       | .ok (.int i) => .ok (.int ((rows.length : Int) - i + 1))
       | r => r
+    | _ => .error .unmodelled
+  else if searchMode = 2 ∨ searchMode = -2 then
+    match array with
+    | .list rows =>
+      match keysOf rows with
+      | none => .error .unmodelled
+      | some keys =>
+        if !(lookup :: keys).all bsKey then .error .unmodelled
+        else
+          match binarySearch keys lookup (searchMode = -2) with
+          | .error e => .error e
+          | .ok (e, ns, nl) =>
+            let idx := if matchMode = -1 then ns else if matchMode = 1 then nl else e
+            .ok (if idx = -1 then errNA else .int (idx + 1))
     | _ => .error .unmodelled
   else .error .unmodelled
 
